@@ -227,6 +227,15 @@ pub fn run_script(script: &Value, tags: &TagFiles, out: &mut dyn Write) -> bool 
     // every read and their observations are logged side by side.
     let c11_fresh = script["c11_fresh"].as_bool().unwrap_or(false);
     let mut fresh: Option<(HttpConnection<ScriptStream>, ScriptStream)> = None;
+    // C11 (relational): the limit in force now (set_payload_max_size may be called mid-stream), every chunk
+    // delivered so far and every byte the connection has written so far
+    let mut cur_limit = limit;
+    let mut delivered_chunks: Vec<Vec<u8>> = vec![];
+    let mut main_out_total: Vec<u8> = vec![];
+    let mut main_popped_total = 0usize;
+    let mut delivered_total = 0usize;
+    let a_end = script["a_end"].as_u64().map(|v| v as usize);
+    let rej_at = script["rej_at"].as_u64().map(|v| v as usize);
     let drain_after_read = script["drain_after_read"].as_bool().unwrap_or(false);
     // completed requests stay queued in the connection until the end of the script (a caller that does
     // not pop after every read); they are popped and logged by one `popall` event before the drop
@@ -282,6 +291,11 @@ pub fn run_script(script: &Value, tags: &TagFiles, out: &mut dyn Write) -> bool 
                     let mut st = stream.0.borrow_mut();
                     st.next_read = None;
                     let delivered = st.last_delivered.clone();
+                    if !delivered.is_empty() {
+                        delivered_chunks.push(delivered.clone());
+                        delivered_total += delivered.len();
+                    }
+                    main_popped_total += popped.len();
                     let lk = if !delivered.is_empty() { "data" } else if rk == "eof" { "eof" } else { "err" };
                     line = json!({"e": "read", "kind": lk, "bytes": obs::bytes(&delivered),
                                   "fds": if first && fd_tags.is_array() { fd_tags.take() } else { json!([]) },
@@ -312,6 +326,7 @@ pub fn run_script(script: &Value, tags: &TagFiles, out: &mut dyn Write) -> bool 
                                     break;
                                 }
                                 main_drained.extend(stream.0.borrow().last_sent.iter());
+                                main_out_total.extend(stream.0.borrow().last_sent.iter());
                                 guard += 1;
                             }
                             if !ok {
@@ -350,8 +365,38 @@ pub fn run_script(script: &Value, tags: &TagFiles, out: &mut dyn Write) -> bool 
                         } else if line["res"]["k"] == "ParseError" {
                             let fs = ScriptStream::new();
                             let mut fc = HttpConnection::new(fs.clone());
-                            fc.set_payload_max_size(limit);
+                            fc.set_payload_max_size(cur_limit);
                             fresh = Some((fc, fs));
+                            // "no part of the rejected input is retained", output included: a reference connection
+                            // is fed the same chunks cut off where the rejected request starts; everything the
+                            // connection under test has written so far must be what the reference writes
+                            if let (Some(at), true) = (rej_at, drain_after_read) {
+                                let rs = ScriptStream::new();
+                                let mut rc = HttpConnection::new(rs.clone());
+                                rc.set_payload_max_size(limit);
+                                let mut left = at;
+                                let mut ref_out: Vec<u8> = vec![];
+                                let mut ref_popped = 0usize;
+                                for ch in delivered_chunks.iter() {
+                                    if left == 0 {
+                                        break;
+                                    }
+                                    let k = ch.len().min(left);
+                                    left -= k;
+                                    rs.0.borrow_mut().rxq.extend(ch[..k].iter());
+                                    rs.0.borrow_mut().next_read = Some(ReadScript::Data(vec![]));
+                                    let _ = catch_unwind(AssertUnwindSafe(|| rc.try_read()));
+                                    while rc.pop_parsed_request().is_some() {
+                                        ref_popped += 1;
+                                    }
+                                    ref_out.extend(drain_silent(&mut rc, &rs));
+                                }
+                                // judged only if the error was raised by the bytes of the request meant to be rejected and
+                                // no complete request was carved out of them (some corruptions leave [valid request][garbage])
+                                if a_end.map_or(false, |e| delivered_total <= e) && ref_popped == main_popped_total {
+                                    writeln!(out, "{}", json!({"e": "c11out", "main": obs::bytes(&main_out_total), "ref": obs::bytes(&ref_out)})).unwrap();
+                                }
+                            }
                         }
                     }
                     let is_ok = line["res"]["k"] == "Ok";
@@ -377,6 +422,10 @@ pub fn run_script(script: &Value, tags: &TagFiles, out: &mut dyn Write) -> bool 
             }
             "setlimit" => {
                 // set_payload_max_size on a live connection (public)
+                cur_limit = obs::from_digits(&ev["limit"]) as usize;
+                if let Some((fc, _)) = fresh.as_mut() {
+                    fc.set_payload_max_size(cur_limit);
+                }
                 conn.set_payload_max_size(obs::from_digits(&ev["limit"]) as usize);
                 line = json!({"e": "setlimit", "limit": ev["limit"]});
                 writeln!(out, "{}", line).unwrap();
